@@ -17,6 +17,48 @@ import os
 import vlib
 
 
+def count_phase(ctx, rc):
+    """The accounting clause under concurrency (spec/OtlpCount.tla): every interleaving of threads emitting
+    through one emitter counts every discarded event exactly once; the scripts are run on real threads."""
+    r = ctx.tlc("MCOtlpCount", "OtlpCount_quick.cfg" if ctx.quick else "OtlpCount_thorough.cfg", workers=4,
+                timeout=900, xmx="4g", label="OtlpCount")
+    if r.violated:
+        ctx.spec_violation(r, "OtlpCount.tla: %s violated by the atomic counter" % r.violated)
+        return
+    ctx.require_actions(r, ["SentA", "DiscardA"], "OtlpCount")
+    cases = os.path.join(ctx.out, "count-cases.ndjson")
+    n = vlib.extract_printed(r.out_path, "REPLAY", cases)
+    with open(cases) as f:
+        srt = sorted(set(f.readlines()))
+    if rc is not None:
+        srt = [json.dumps(rc["case"]) + "\n"]
+    with open(cases, "w") as f:
+        f.writelines(srt)
+    if not srt:
+        raise vlib.ToolError("OtlpCount printed no scripts")
+    # the counter as a separate load and store loses updates: the specification must say so on every run
+    bad = ctx.tlc("MCOtlpCount", "OtlpCount_split.cfg", workers=2, timeout=300, xmx="2g", count=False,
+                  expect_violation=True, label="OtlpCount_split")
+    if bad.violated != "CountExact":
+        raise vlib.ToolError("OtlpCount_split.cfg: expected CountExact to be violated by the load/store counter, got %r" % bad.violated)
+    bindir = ctx.cargo_build("vh_otlp", bins=["c14_count"])
+    rep_path = os.path.join(ctx.out, "count-report.json")
+    reps = ["50000", "40"] if ctx.quick else ["300000", "100"]
+    ctx.run_harness(os.path.join(bindir, "c14_count"), [cases, rep_path] + reps)
+    rep = json.load(open(rep_path))
+    ctx.cov["traces_validated_against_impl"] += rep["cases"]
+    ctx.cov["concurrent_accounting"] = {"scripts": rep["cases"], "checks": rep["checks"], "split_design_violates": bad.violated,
+                                        **rep["extra"]}
+    ctx.sample(json.loads(srt[len(srt) // 2]))
+    ctx.assumptions.append("OtlpCount: the interleaving of the real threads is the operating system's (the specification decides that the "
+                           "outcome does not depend on it); every model step is repeated %s / %s times back to back" % tuple(reps))
+    for m in rep["mismatches"]:
+        ctx.violation("C14 %s: %s" % (m["what"], json.dumps(m["detail"])[:300]), {"case": m["case"], "detail": m["detail"]},
+                      signature="count " + m["what"])
+    if not rep["mismatches"] and rc is None and not rep["extra"].get("scripts_with_concurrent_discards"):
+        raise vlib.ToolError("vacuity: no script had two threads discarding concurrently")
+
+
 def run(ctx):
     cfg = "OtlpRoute_quick.cfg" if ctx.quick else "OtlpRoute_thorough.cfg"
     r = ctx.tlc("OtlpRoute", cfg, workers=4, timeout=900, xmx="4g")
@@ -32,6 +74,9 @@ def run(ctx):
     with open(cases, "w") as f:
         f.writelines(srt)
     rc = ctx.replay_case()
+    if rc is not None and rc.get("case", {}).get("threads"):
+        count_phase(ctx, rc)
+        return
     if rc is not None:
         with open(cases, "w") as f:
             f.write(json.dumps(rc["case"]) + "\n")
@@ -68,6 +113,8 @@ def run(ctx):
             ev.get("kind"), ev.get("ext"), ev.get("val"), m["detail"].get("observed"))
         ctx.violation("C14 %s (transport %s, configured %s)" % (
             m["what"], m["detail"].get("transport"), m["case"].get("cfg")), m, signature=sig)
+    if rc is None:
+        count_phase(ctx, None)
     # vacuity guard (only meaningful when every case agreed)
     if rc is None and not ctx.violations:
         for want in ("logs", "traces", "metrics", "discard"):
